@@ -1,5 +1,5 @@
 # replay of a bounded stand-in violation (C13): re-run native/c13_tdm.py
 import sys
-print("calls ('unroll2', 'unroll2', 'space1'): the program no longer runs: IndexError: list index out of range")
+print('N=[2, 1] bands measured in order [0, 1] timebins=3 shots=2: samples[0,0,2] identifies pulse 1, expected pulse 2 (band 0)')
 print('REPLAY-VIOLATION')
 sys.exit(1)
